@@ -438,3 +438,14 @@ SEEDED["C15"] += [
     (CEN, "    centroids = numpy.zeros((2, nt))\n|||        corr = cross_correlate(im[frame], ref, padding=padding)\n",
           "    centroids = numpy.zeros((2, nt))\n    acc = numpy.zeros((ny, nx))\n|||        work = acc\n        work += im[frame]\n        corr = cross_correlate(work, ref, padding=padding)\n", "H2.frames-independent"),
 ]
+
+# C19: spellings of an average
+_SFM = "numpy.mean((phase[0:-i, :] - phase[i:, :])**2)"
+BENIGN["C19"] += [
+    (SC, _SFM, "numpy.sum((phase[0:-i, :] - phase[i:, :])**2) / ((phase.shape[0] - i) * phase.shape[1])"),
+    (SC, _SFM, "((phase[0:-i, :] - phase[i:, :])**2).sum() / (phase[i:, :]).size"),
+]
+SEEDED["C19"] += [
+    (SC, _SFM, "numpy.sum((phase[0:-i, :] - phase[i:, :])**2) / ((phase.shape[1] - i) * phase.shape[1])", "T1"),
+    (SC, _SFM, "numpy.sum((phase[0:-i, :] - phase[i:, :])**2) / phase.size", "T1"),
+]
